@@ -68,11 +68,20 @@ type c17Label struct {
 	Q  byte   // QoS of the inbound message (ib)
 	Re bool   // ib: the handler that is called for this message calls Handle(H) before it returns
 	Dup bool   // ib / qp: the PUBLISH carries DUP=1 (a broker's retransmission for a resumed session)
+	Fail bool  // ib(q1)/qp/qr: the transport fails the client's write of the acknowledgement of this packet
+	           // (PUBACK / PUBREC / PUBCOMP) and cuts the connection; must be the last message of its send
+	Auto bool  // en: the connection ends by itself (write fault above), the scenario does not close it
 	Via string // uh (loop family): "" / "the returned ReconnectClient" / "the application's own RetryClient"
 }
 
-// coq renders the label; reentered: the handler did make the Handle call this message asks for
+// coq renders the label; reentered: the handler did make the Handle call this message asks for.
+// A write fault is no label of its own in the model: "hand-over, then the acknowledgement write fails and
+// the reader ends" is the hand-over label followed by R_end; a QoS 2 PUBLISH whose PUBREC write fails is
+// not stored (serve.go: the write comes first), i.e. only R_end.
 func (l c17Label) coq(reentered bool) string {
+	if l.Op == "qp" && l.Fail {
+		return ""
+	}
 	if l.Op == "ib" && l.Re && reentered {
 		return fmt.Sprintf("ih %d %d %d", l.K, l.M, l.H)
 	}
@@ -96,6 +105,15 @@ func (l c17Label) coq(reentered bool) string {
 }
 
 func (l c17Label) desc() string {
+	if l.Fail {
+		l2 := l
+		l2.Fail = false
+		return l2.desc() + map[string]string{"ib": "[the write of its PUBACK fails: connection cut]",
+			"qp": "[the write of its PUBREC fails: connection cut]", "qr": "[the write of its PUBCOMP fails: connection cut]"}[l.Op]
+	}
+	if l.Op == "en" && l.Auto {
+		return fmt.Sprintf("End(#%d) by the write fault", l.K)
+	}
 	h := func(x int) string {
 		if x == 0 {
 			return "nil"
@@ -151,7 +169,9 @@ func (l c17Label) desc() string {
 func c17Coq(ls []c17Label, g *c17Log) string {
 	var s []string
 	for _, l := range ls {
-		s = append(s, l.coq(g != nil && g.didReenter(l.M)))
+		if x := l.coq(g != nil && g.didReenter(l.M)); x != "" {
+			s = append(s, x)
+		}
 	}
 	return cListInline(s)
 }
@@ -250,6 +270,11 @@ type c17Conn struct {
 	mu   sync.Mutex
 	acks map[uint32]chan struct{} // packet type << 16 | packet identifier
 	comp map[uint16]bool          // PUBCOMP written for this identifier
+	failOn   uint32               // if non-zero: the write of this acknowledgement (type<<16|id) fails and cuts the connection
+	faultHit chan struct{}        // closed when that write was attempted
+	holdOut  bool                 // outbound QoS 1 PUBLISHes of the client are not acknowledged (request left in flight)
+	outSeen  chan struct{}        // closed when an outbound PUBLISH of the client reached the broker
+	outOnce  sync.Once
 
 	optArrive, optRelease       chan struct{} // ConnectOption closure: inside BaseClient.Connect, before the reader starts
 	connectWritten              chan struct{} // CONNECT reached the broker
@@ -272,7 +297,7 @@ func c17NewConn(k int, g *c17Log, dialH int, gateWrite bool) *c17Conn {
 		optArrive: make(chan struct{}), optRelease: make(chan struct{}),
 		connectWritten: make(chan struct{}),
 		activeArrive:   make(chan struct{}), activeRelease: make(chan struct{}),
-		connectDone: make(chan struct{})}
+		connectDone: make(chan struct{}), faultHit: make(chan struct{}), outSeen: make(chan struct{})}
 	if gateWrite {
 		c.connGate = make(chan struct{})
 	}
@@ -288,7 +313,27 @@ func c17NewConn(k int, g *c17Log, dialH int, gateWrite bool) *c17Conn {
 			}
 		case 0x40, 0x50, 0x70:
 			if len(pkt) >= 4 {
-				c.ack(uint32(pkt[0]&0xF0)<<16 | uint32(pkt[2])<<8 | uint32(pkt[3]))
+				key := uint32(pkt[0]&0xF0)<<16 | uint32(pkt[2])<<8 | uint32(pkt[3])
+				c.mu.Lock()
+				fail := c.failOn != 0 && c.failOn == key
+				c.mu.Unlock()
+				if fail {
+					// the transport breaks exactly at this write: nothing reaches the broker
+					c.mc.Close()
+					c17Close(c.faultHit)
+					return errCut
+				}
+				c.ack(key)
+			}
+		case 0x30:
+			// an outbound PUBLISH of the client (families with a request in flight): QoS 1 is acknowledged
+			// at once unless the scenario holds it
+			c.outOnce.Do(func() { close(c.outSeen) })
+			if (pkt[0]>>1)&3 == 1 && len(pkt) >= 4 {
+				tl := int(pkt[2])<<8 | int(pkt[3])
+				if !c.holdOut && len(pkt) >= 6+tl {
+					c.mc.send(encID(0x40, uint16(pkt[4+tl])<<8|uint16(pkt[5+tl])))
+				}
 			}
 		}
 		return nil
@@ -382,6 +427,16 @@ func (c *c17Conn) sendGroup(connack bool, msgs []c17Label) []bool {
 			}
 		}
 	}
+	if n := len(msgs); n > 0 && msgs[n-1].Fail {
+		// the acknowledgement write of the last message fails: evidence of processing is the attempt itself
+		f := msgs[n-1]
+		key := map[string]uint32{"ib": 0x40, "qp": 0x50, "qr": 0x70}[f.Op]<<16 | uint32(f.M)
+		c.mu.Lock()
+		c.failOn = key
+		delete(c.acks, key)
+		c.mu.Unlock()
+		waits[n-1] = c.faultHit
+	}
 	c.mc.send(b)
 	done := make([]bool, len(msgs))
 	later := false
@@ -401,6 +456,16 @@ func (c *c17Conn) sendGroup(connack bool, msgs []c17Label) []bool {
 
 // waitAck waits for an acknowledgement; gives up when the reader has finished (nothing can be
 // acknowledged any more) or the time limit expires.
+// readerGone: the client's reader has finished (non-blocking)
+func (c *c17Conn) readerGone() bool {
+	select {
+	case <-c.done:
+		return c.done != nil
+	default:
+		return false
+	}
+}
+
 func (c *c17Conn) waitAck(ch chan struct{}) bool {
 	select {
 	case <-ch:
@@ -535,7 +600,7 @@ func (b *c17Bare) exec(ls []c17Label) bool {
 				if ls[j+x].Op == "qr" {
 					b.comp[ls[j+x].M] = c.pubcompSeen(uint16(ls[j+x].M))
 				}
-				if !d {
+				if !d && !c.readerGone() {
 					b.problem = fmt.Sprintf("label %d (%s): the reader never got past this message (no acknowledgement)", j+x, ls[j+x].desc())
 					return false
 				}
@@ -554,7 +619,9 @@ func (b *c17Bare) exec(ls []c17Label) bool {
 			}
 		case "en":
 			c := b.conns[l.K]
-			c.mc.Close()
+			if !l.Auto {
+				c.mc.Close()
+			}
 			if c.readerMayRun && !c17WaitCh(c.done) {
 				b.problem = fmt.Sprintf("label %d (%s): reader did not finish", i, l.desc())
 				return false
@@ -585,6 +652,13 @@ func c17Obs(ls []c17Label, hands []c17Hand, processed map[int]bool, comp map[int
 			continue
 		}
 		hs := by[l.M]
+		if l.Fail && l.Op == "qr" && len(hs) == 1 {
+			// released and handed over; the PUBCOMP write was the injected fault
+			coq = append(coq, fmt.Sprintf("oh %d %d %d", l.K, l.M, hs[0]))
+			desc = append(desc, fmt.Sprintf("m%d(#%d)->h%d", l.M, l.K, hs[0]))
+			want = append(want, l.M)
+			continue
+		}
 		switch {
 		case len(hs) == 1 && l.Op == "qr" && !comp[l.M]:
 			coq = append(coq, fmt.Sprintf("on %d %d %d", l.K, l.M, hs[0]))
@@ -693,7 +767,9 @@ func (g *c17Gen) add(l c17Label) {
 		g.phase[l.K] = 2
 		g.stores[g.cstore[l.K]] = map[int]bool{} // clean session: forget
 	case "qp":
-		g.storeOf(l.K)[l.M] = true
+		if !l.Fail { // PUBREC write failed: serve returns before storing
+			g.storeOf(l.K)[l.M] = true
+		}
 	case "qr":
 		delete(g.storeOf(l.K), l.M)
 		g.released = append(g.released, l.M)
@@ -767,6 +843,31 @@ func (g *c17Gen) msgs(k, n int) {
 	}
 }
 
+// fault: connection k ends because the write of an acknowledgement fails (PUBACK of a QoS 1 message, PUBREC of a
+// QoS 2 PUBLISH, PUBCOMP of a release); returns the labels (the last one is the automatic end)
+func (g *c17Gen) fault(k int, withEnd bool) {
+	kind := g.r.Intn(3)
+	switch {
+	case kind == 0:
+		g.add(c17Label{Op: "ib", K: k, M: g.nextM, Q: 1, Fail: true})
+		g.nextM++
+	case kind == 1:
+		g.add(c17Label{Op: "qp", K: k, M: g.nextM, Fail: true})
+		g.nextM++
+	default:
+		p := g.pending(k)
+		if len(p) == 0 {
+			g.add(c17Label{Op: "qp", K: k, M: g.nextM})
+			p = []int{g.nextM}
+			g.nextM++
+		}
+		g.add(c17Label{Op: "qr", K: k, M: p[g.r.Intn(len(p))], Fail: true})
+	}
+	if withEnd {
+		g.add(c17Label{Op: "en", K: k, Auto: true})
+	}
+}
+
 func (g *c17Gen) pick(cands []int) int { return cands[g.r.Intn(len(cands))] }
 
 func (g *c17Gen) with(p int) []int {
@@ -828,6 +929,7 @@ func (g *c17Gen) random(n int, overlap bool) {
 		}
 		if ks := g.with(3); len(ks) > 0 {
 			opts = append(opts, opt{6, func() { g.msgs(g.pick(ks), 3) }})
+			opts = append(opts, opt{1, func() { g.fault(g.pick(ks), true) }})
 			var nr []int
 			for _, k := range ks {
 				if !g.ret[k] {
@@ -891,6 +993,15 @@ func c17Skeleton(which int) []c17Label {
 			{Op: "dl"}, op("sc", 1), {Op: "cb"}, op("cs", 1), op("ca", 1), qr(1, 2), ib(1, 4, 1), op("cr", 1), op("en", 1),
 			{Op: "dl"}, op("sc", 2), {Op: "cb"}, op("cs", 2), op("ca", 2), ib(2, 5, 1), op("cr", 2), qr(2, 3), ib(2, 6, 1),
 			{Op: "qu", K: 2, M: 3}, ib(2, 7, 1), {Op: "qu", K: 2, M: 2}, ib(2, 8, 1)}
+	case 5: // the transport fails the write of an acknowledgement: PUBACK (#0), PUBREC (#1), PUBCOMP (#2); the broker
+		// redelivers per MQTT on the next connection: PUBLISH q1 DUP; PUBLISH q2 DUP + PUBREL; PUBREL only (finds nothing:
+		// the message was handed over before the PUBCOMP write)
+		auto := func(k int) c17Label { return c17Label{Op: "en", K: k, Auto: true} }
+		return []c17Label{{Op: "dl"}, op("sc", 0), {Op: "cb"}, op("cs", 0), op("ca", 0), ib(0, 1, 1), op("cr", 0), {Op: "ib", K: 0, M: 2, Q: 1, Fail: true}, auto(0),
+			{Op: "dl"}, op("sc", 1), {Op: "cb"}, op("cs", 1), op("ca", 1), {Op: "ib", K: 1, M: 3, Q: 1, Dup: true}, op("cr", 1), {Op: "qp", K: 1, M: 4, Fail: true}, auto(1),
+			{Op: "dl"}, op("sc", 2), {Op: "cb"}, op("cs", 2), op("ca", 2), {Op: "qp", K: 2, M: 5, Dup: true}, {Op: "qr", K: 2, M: 5}, ib(2, 6, 1), op("cr", 2),
+			{Op: "qp", K: 2, M: 7}, {Op: "qr", K: 2, M: 7, Fail: true}, auto(2),
+			{Op: "dl"}, op("sc", 3), {Op: "cb"}, op("cs", 3), op("ca", 3), {Op: "qu", K: 3, M: 7}, ib(3, 8, 1)}
 	default: // SetClient while connection 0 is still read (bare RetryClient only)
 		return []c17Label{{Op: "dl"}, op("sc", 0), {Op: "cb"}, op("cs", 0), op("ca", 0), ib(0, 1, 1), op("cr", 0), {Op: "dl"}, op("sc", 1),
 			ib(0, 2, 1), {Op: "cb"}, ib(0, 3, 1), op("cs", 1), op("ca", 1), ib(1, 4, 1), ib(0, 5, 1), op("cr", 1), op("en", 0), ib(1, 6, 1)}
@@ -905,6 +1016,10 @@ func c17Normalise(ls []c17Label) []c17Label {
 	sync := 1000
 	for i, l := range ls {
 		last := i+1 >= len(ls) || !c17IsMsg(ls[i+1]) || ls[i+1].K != l.K
+		if l.Fail {
+			out = append(out, l)
+			continue
+		}
 		if l.Op == "qu" && last {
 			l2 := l
 			out = append(out, l2)
@@ -939,6 +1054,9 @@ type c17Epoch struct {
 	SendFirst                       bool  // CONNACK+burst queued before the write of CONNECT returns
 	Burst                           []c17Label
 	Later                           [][]c17Label // each: a single uh, or a group of ib
+	EndByFault                      bool         // the last group of Later ends with a Fail label: the connection ends by that write fault
+	Outbound                        bool         // before this connection is cut an outbound QoS 1 Publish is left in flight; the OnError
+	                                             // callback of its failure is held until the NEXT connection is established
 }
 
 var errC17Stop = errors.New("c17: no further connection in this scenario")
@@ -954,7 +1072,7 @@ var errC17Stop = errors.New("c17: no further connection in this scenario")
 // one registered through the returned value. own = 1: every Handle call goes through rc;
 // own = 2: alternately through rc and through the returned ReconnectClient.
 // clean: every Connect carries WithCleanSession(true) (label csc instead of cs).
-func c17RunLoop(pre []int, eps []c17Epoch, own int, clean bool) (labels []c17Label, g *c17Log, processed map[int]bool, comp map[int]bool, problem string) {
+func c17RunLoop(pre []int, eps []c17Epoch, own int, clean bool) (labels []c17Label, g *c17Log, processed map[int]bool, comp map[int]bool, problem string, note string) {
 	g = &c17Log{}
 	processed = map[int]bool{}
 	comp = map[int]bool{}
@@ -1014,13 +1132,26 @@ func c17RunLoop(pre []int, eps []c17Epoch, own int, clean bool) (labels []c17Lab
 		return c17Call(func() { doHandle(v, h) })
 	}
 	opts := []mqtt.ReconnectOption{mqtt.WithReconnectWait(50*time.Microsecond, 50*time.Microsecond)}
+	onErrArrive, onErrRelease := make(chan struct{}), make(chan struct{})
+	var onErrOnce sync.Once
 	if own != 0 {
 		rc = &mqtt.RetryClient{}
+		for _, ep := range eps {
+			if ep.Outbound {
+				// user code on the task goroutine, inside the failed task (retryclient.go publish: c.onError(err))
+				rc.OnError = func(error) {
+					onErrOnce.Do(func() {
+						close(onErrArrive)
+						c17ParkOn(onErrRelease)
+					})
+				}
+			}
+		}
 		opts = append(opts, mqtt.WithRetryClient(rc))
 		// the handlers registered before Connect are registered on rc before the ReconnectClient exists
 		for _, h := range pre {
 			if !handle(h) {
-				return labels, g, processed, comp, "Handle on the application's RetryClient did not return"
+				return labels, g, processed, comp, "Handle on the application's RetryClient did not return", ""
 			}
 		}
 		pre = nil
@@ -1028,7 +1159,7 @@ func c17RunLoop(pre []int, eps []c17Epoch, own int, clean bool) (labels []c17Lab
 	var err error
 	cli, err = mqtt.NewReconnectClient(dialer, opts...)
 	if err != nil {
-		return nil, g, processed, comp, "NewReconnectClient: " + err.Error()
+		return nil, g, processed, comp, "NewReconnectClient: " + err.Error(), ""
 	}
 	handles := func(hs []int, where string) bool {
 		for _, h := range hs {
@@ -1079,6 +1210,7 @@ func c17RunLoop(pre []int, eps []c17Epoch, own int, clean bool) (labels []c17Lab
 		}
 	}()
 	firstOK := false
+	var closedEarly []int
 	sendGroup := func(c *c17Conn, connack bool, grp []c17Label) bool {
 		done := c.sendGroup(connack, grp)
 		for x, d := range done {
@@ -1089,13 +1221,14 @@ func c17RunLoop(pre []int, eps []c17Epoch, own int, clean bool) (labels []c17Lab
 			if grp[x].Op == "qr" {
 				comp[grp[x].M] = c.pubcompSeen(uint16(grp[x].M))
 			}
-			if !d {
+			if !d && !c.readerGone() {
 				problem = fmt.Sprintf("%s: the reader never got past this message (no acknowledgement)", grp[x].desc())
 				return false
 			}
 		}
 		return true
 	}
+	heldOnError := false
 	for k, ep := range eps {
 		if !c17WaitCh(dialArrive) {
 			problem = fmt.Sprintf("connection #%d: the reconnect loop did not dial", k)
@@ -1186,6 +1319,24 @@ func c17RunLoop(pre []int, eps []c17Epoch, own int, clean bool) (labels []c17Lab
 				return
 			}
 		}
+		if heldOnError {
+			// the failed task of the previous connection finishes only now, after SetClient+Connect of this one
+			heldOnError = false
+			c17Close(onErrRelease)
+			// past the failed task: the task goroutine retransmits on this connection (Retry task), or — wrongly — this
+			// connection has been closed
+			t := time.NewTimer(c17Limit())
+			select {
+			case <-c.outSeen:
+			case <-c.done:
+			case <-t.C:
+				atomic.AddInt32(&c17Expired, 1)
+				t.Stop()
+				problem = fmt.Sprintf("connection #%d: the request interrupted on the previous connection was not retransmitted", k)
+				return
+			}
+			t.Stop()
+		}
 		for _, grp := range ep.Later {
 			if grp[0].Op == "uh" {
 				if !handles([]int{grp[0].H}, "after Connect") {
@@ -1198,15 +1349,44 @@ func c17RunLoop(pre []int, eps []c17Epoch, own int, clean bool) (labels []c17Lab
 				return
 			}
 		}
+		if c.mc.isClosed() && !ep.EndByFault {
+			closedEarly = append(closedEarly, k)
+		}
 		if k == len(eps)-1 {
 			break
 		}
-		c.mc.Close() // peer closes: the loop reconnects by itself
-		labels = append(labels, c17Label{Op: "en", K: k})
+		if ep.Outbound {
+			// leave an outbound QoS 1 request in flight: written, never acknowledged
+			c.holdOut = true
+			if !c17Call(func() {
+				ctx, cancel := ctxTimeout(c17Wait)
+				defer cancel()
+				_ = cli.Publish(ctx, &mqtt.Message{Topic: "out", QoS: mqtt.QoS1, Payload: []byte{byte(k)}})
+			}) || !c17WaitCh(c.outSeen) {
+				problem = fmt.Sprintf("connection #%d: the outbound Publish was not written", k)
+				return
+			}
+		}
+		if ep.EndByFault {
+			labels = append(labels, c17Label{Op: "en", K: k, Auto: true})
+		} else {
+			c.mc.Close() // peer closes: the loop reconnects by itself
+			labels = append(labels, c17Label{Op: "en", K: k})
+		}
+		if ep.Outbound {
+			if !c17WaitCh(onErrArrive) {
+				problem = fmt.Sprintf("connection #%d: OnError was not called for the interrupted request", k)
+				return
+			}
+			heldOnError = true
+		}
 		if !c17WaitCh(c.done) {
 			problem = fmt.Sprintf("connection #%d: reader did not finish after peer close", k)
 			return
 		}
+	}
+	if len(closedEarly) > 0 {
+		note = fmt.Sprintf("the client closed connection(s) %v although nothing was wrong with them", closedEarly)
 	}
 	disconnected = true
 	if !c17Call(func() {
@@ -1219,7 +1399,7 @@ func c17RunLoop(pre []int, eps []c17Epoch, own int, clean bool) (labels []c17Lab
 	return
 }
 
-func (g *c17Gen) loopScenario(nEp int, clean bool) (pre []int, eps []c17Epoch) {
+func (g *c17Gen) loopScenario(nEp int, clean bool, own int) (pre []int, eps []c17Epoch) {
 	hs := func(p int) []int {
 		var out []int
 		for g.r.Intn(100) < p {
@@ -1255,6 +1435,20 @@ func (g *c17Gen) loopScenario(nEp int, clean bool) (pre []int, eps []c17Epoch) {
 				g.labels = nil
 				g.msgs(k, 3)
 				ep.Later = append(ep.Later, g.labels)
+			}
+		}
+		if k < nEp-1 {
+			switch x := g.r.Intn(10); {
+			case x < 2:
+				// the connection ends by a failing acknowledgement write
+				g.labels = nil
+				g.fault(k, false) // (the automatic end is added by the runner)
+				for _, l := range g.labels {
+					ep.Later = append(ep.Later, []c17Label{l})
+				}
+				ep.EndByFault = true
+			case x < 4 && own != 0:
+				ep.Outbound = true
 			}
 		}
 		eps = append(eps, ep)
@@ -1436,7 +1630,7 @@ func runC17(cfg *runCfg) error {
 	}
 
 	// ---- seq: Handle inserted at every position (and every pair of positions) of two skeletons
-	for which := 0; which < 5; which++ {
+	for which := 0; which < 6; which++ {
 		sk := c17Skeleton(which)
 		for _, first := range []int{1, 0} { // with / without a handler registered before everything
 			base := sk
@@ -1479,7 +1673,10 @@ func runC17(cfg *runCfg) error {
 			return
 		}
 		t0 := time.Now()
-		ls, g, processed, comp, problem := c17RunLoop(pre, eps, own, clean)
+		ls, g, processed, comp, problem, remark := c17RunLoop(pre, eps, own, clean)
+		if remark != "" {
+			m.ImplViolations = append(m.ImplViolations, map[string]interface{}{"family": "loop", "kind": kind, "schedule": c17Desc(ls), "what": remark})
+		}
 		c17Slow("loop", t0, ls, problem)
 		if problem != "" {
 			m.ImplViolations = append(m.ImplViolations, map[string]interface{}{"family": "loop", "kind": kind, "with_retry_client_mode": own, "clean_session": clean, "schedule": c17Desc(ls), "stuck": problem})
@@ -1525,6 +1722,12 @@ func runC17(cfg *runCfg) error {
 		mm := 1
 		clean := (mask/3)%5 == 4 // every Connect with CleanSession: the stored QoS 2 message is forgotten
 		stored := 0              // identifier of the QoS 2 PUBLISH connection 0 stored and never released
+		storedReleased := false
+		variant := (mask / 3) % 7
+		ownMode := (mask / 3) % 3
+		if variant == 3 && ownMode == 0 {
+			ownMode = 1 + (mask/3)%2 // OnError can only be set on a RetryClient the application owns
+		}
 		for k := 0; k < 2; k++ {
 			ep := c17Epoch{AtDial: next(1 + 5*k), AtOpt: next(2 + 5*k), AtConn: next(3 + 5*k), SendFirst: mask%2 == 0}
 			if k == 1 && (mask&0x7F == 0 || mask%5 == 0) {
@@ -1538,7 +1741,7 @@ func runC17(cfg *runCfg) error {
 					c17Label{Op: "qp", K: k, M: mm + 7, Dup: true}, c17Label{Op: "qr", K: k, M: mm + 7}, c17Label{Op: "ib", K: k, M: mm + 8, Q: 1})
 				// ... and, for the QoS 2 PUBLISH whose PUBREC the broker got on connection 0, ONLY the PUBREL
 				rel := "qr"
-				if clean {
+				if clean || storedReleased {
 					rel = "qu" // forgotten by the clean-session connect: the PUBREL finds nothing
 				}
 				ep.Burst = append(ep.Burst, c17Label{Op: rel, K: k, M: stored}, c17Label{Op: "ib", K: k, M: mm + 9, Q: 1})
@@ -1562,6 +1765,24 @@ func runC17(cfg *runCfg) error {
 				ep.Later = append(ep.Later, []c17Label{{Op: "qp", K: k, M: mm + 5}})
 				stored = mm + 5
 			}
+			if k == 0 && variant == 3 {
+				// an outbound QoS 1 request is in flight when connection 0 is cut; its OnError is held until
+				// connection 1 is established
+				ep.Outbound = true
+			}
+			if k == 0 && variant == 5 {
+				// connection 0 ends by a failing acknowledgement write
+				switch (mask / 21) % 3 {
+				case 0: // PUBCOMP of the stored message: released and handed over, then the write fails
+					ep.Later = append(ep.Later, []c17Label{{Op: "qr", K: k, M: stored, Fail: true}})
+					storedReleased = true
+				case 1: // PUBACK
+					ep.Later = append(ep.Later, []c17Label{{Op: "ib", K: k, M: mm + 11, Q: 1, Fail: true}})
+				default: // PUBREC: that PUBLISH is not stored
+					ep.Later = append(ep.Later, []c17Label{{Op: "qp", K: k, M: mm + 12, Fail: true}})
+				}
+				ep.EndByFault = true
+			}
 			if k == 1 {
 				// the PUBREL once more: nothing may be handed over twice
 				ep.Later = append(ep.Later, []c17Label{{Op: "qu", K: k, M: stored}, {Op: "ib", K: k, M: mm + 10, Q: 1}})
@@ -1571,10 +1792,10 @@ func runC17(cfg *runCfg) error {
 				// (the reconnect loop is still inside Connect)
 				ep.Burst[1].Re, ep.Burst[1].H = true, 21
 			}
-			mm += 11
+			mm += 13
 			eps = append(eps, ep)
 		}
-		addLoop(pre, eps, (mask/3)%3, clean, "enumerated")
+		addLoop(pre, eps, ownMode, clean, "enumerated")
 	}
 	nLoop := 200
 	if cfg.tier == "thorough" {
@@ -1585,8 +1806,9 @@ func runC17(cfg *runCfg) error {
 	for i := 0; i < nLoop; i++ {
 		g := c17NewGen(r)
 		clean := r.Intn(6) == 0
-		pre, eps := g.loopScenario(1+r.Intn(6), clean)
-		addLoop(pre, eps, r.Intn(3), clean, "random")
+		own := r.Intn(3)
+		pre, eps := g.loopScenario(1+r.Intn(6), clean, own)
+		addLoop(pre, eps, own, clean, "random")
 	}
 
 	// ---- race: Handle truly concurrent with a window of steps on a bare RetryClient
@@ -1751,7 +1973,7 @@ func runC17(cfg *runCfg) error {
 	m.Families["race"] = race.fam
 	m.Evaluations = len(seq.cases) + len(loop.cases) + len(race.cases) + rounds
 	m.DistinctNontrivial = nontrivial
-	m.Rule = "seq: a bare RetryClient executes a schedule of the model label by label (Handle inserted at every position / pair of positions of four skeleton schedules: two consecutive connections; SetClient while the older connection is still read; handlers calling Handle from their callback; QoS 2 exchanges with PUBLISH and PUBREL sent apart, a cut between them and the broker's DUP retransmissions (QoS 1, QoS 2 PUBLISH then PUBREL) in the same send as the next CONNACK; random walks over enabled labels, 12-47 labels, up to 7 clients); loop: a real ReconnectClient (a third each: default RetryClient; the application's own RetryClient passed with WithRetryClient and every Handle call, also those before NewReconnectClient, made through that object; the same with calls alternating between that object and the returned client) with Handle calls at the subsets of the eleven gate positions of two connections and random scenarios of 1-6 connections with refused attempts, bursts behind CONNACK, dialer-set handlers; race: Handle concurrent with 1-3 messages or with a whole reconnect; stress: time-bounded rounds of Handle concurrent with an ungated RetryClient.Connect (spin offsets, Stats() contention), a message sent after both returned, rounds aggregated by outcome before the Coq evaluation. Messages whose handler calls Handle from inside the callback (new handler, same handler, nil) in seq (third skeleton, 1 in 8 random messages) and loop (enumerated: last message of connection 0, QoS 1 message right behind the second CONNACK). Every CONNACK is followed in the same send by the burst; QoS 0/1/2. Non-trivial = distinct forced schedule with a Handle call, two or more connected connections and a message on a later connection."
+	m.Rule = "seq: a bare RetryClient executes a schedule of the model label by label (Handle inserted at every position / pair of positions of four skeleton schedules: two consecutive connections; SetClient while the older connection is still read; handlers calling Handle from their callback; QoS 2 exchanges with PUBLISH and PUBREL sent apart, a cut between them and the broker's DUP retransmissions (QoS 1, QoS 2 PUBLISH then PUBREL) in the same send as the next CONNACK; random walks over enabled labels, 12-47 labels, up to 7 clients); loop: a real ReconnectClient (a third each: default RetryClient; the application's own RetryClient passed with WithRetryClient and every Handle call, also those before NewReconnectClient, made through that object; the same with calls alternating between that object and the returned client) with Handle calls at the subsets of the eleven gate positions of two connections and random scenarios of 1-6 connections with refused attempts, bursts behind CONNACK, dialer-set handlers; race: Handle concurrent with 1-3 messages or with a whole reconnect; stress: time-bounded rounds of Handle concurrent with an ungated RetryClient.Connect (spin offsets, Stats() contention), a message sent after both returned, rounds aggregated by outcome before the Coq evaluation. Acknowledgement-write faults (the transport fails the client's PUBACK / PUBREC / PUBCOMP write and cuts) with the broker's MQTT redelivery on the next connection (PUBLISH DUP, or PUBREL only), and, for a RetryClient the application owns, an outbound QoS 1 request in flight at the cut whose OnError callback is held until the next connection is established. Messages whose handler calls Handle from inside the callback (new handler, same handler, nil) in seq (third skeleton, 1 in 8 random messages) and loop (enumerated: last message of connection 0, QoS 1 message right behind the second CONNACK). Every CONNACK is followed in the same send by the burst; QoS 0/1/2. Non-trivial = distinct forced schedule with a Handle call, two or more connected connections and a message on a later connection."
 	m.Distribution["counts"] = stats
 	m.Distribution["seq_cases"] = len(seq.cases)
 	m.Distribution["loop_cases"] = len(loop.cases)
